@@ -32,10 +32,17 @@ class FloatLike (α : Type) where
   erf : α → α
   erfinv : α → α
 
+/-- Python's `round`: to nearest, ties to EVEN (C's `round`, which `Float.round` follows, sends ties away from zero) -/
+def roundHalfEven (x : Float) : Nat :=
+  let f := Float.floor x
+  let d := x - f
+  let n := f.toUInt64.toNat
+  if d < 0.5 then n else if d > 0.5 then n + 1 else if n % 2 == 0 then n else n + 1
+
 instance : FloatLike Float :=
-  ⟨Float.isNaN, -(1.0/0.0), fun x => (Float.round x).toUInt64.toNat, Float.floor, ErfFloat.erf, ErfFloat.erfinv⟩
+  ⟨Float.isNaN, -(1.0/0.0), roundHalfEven, Float.floor, ErfFloat.erf, ErfFloat.erfinv⟩
 instance : FloatLike Float32 :=
-  ⟨Float32.isNaN, -(1.0/0.0), fun x => (Float32.round x).toUInt64.toNat, Float32.floor,
+  ⟨Float32.isNaN, -(1.0/0.0), fun x => roundHalfEven x.toFloat, Float32.floor,
    fun x => (ErfFloat.erf x.toFloat).toFloat32, fun x => (ErfFloat.erfinv x.toFloat).toFloat32⟩
 
 namespace Driver
